@@ -285,7 +285,7 @@ fn main() {
         eprintln!("usage: harness check <prop> <quick|thorough> <seed> <driver> <out.json> | harness replay <prop> <driver> <file>");
         std::process::exit(2);
     }
-    panic::set_hook(Box::new(|_| {}));
+    if std::env::var("VERIF_SHOW_PANICS").is_ok() { } else { panic::set_hook(Box::new(|_| {})); }
     match args[1].as_str() {
         "check" => {
             let prop = props::lookup(&args[2]).expect("unknown property");
